@@ -6,7 +6,8 @@ from . import domcommon as DC
 THEOREMS = ['C09_every_history: WF h -> Idx top h -> ops_ok -> ops_keep_top -> WF (run h ops) /\\ Idx top (run h ops) (induction over the history)',
             'C09_elements_by_type: under Idx, getElementsByType = exactly the attached elements of the type, each once',
             'C09_style_by_name_sound / C09_style_by_name_complete (the latter along histories with unique registered style names)',
-            'C09_step, C09_walk_complete (pigeonhole: the bounded subtree walk reaches every descendant), C09_start (non-vacuity)']
+            'C09_step, C09_walk_complete (pigeonhole: the bounded subtree walk reaches every descendant), C09_start (non-vacuity)',
+            'C09_checked_start / C09_checked_complete / C09_checked_history / C09_checked_step: the executable checkers idx_ok, comp_ok, wf_ok, op_okb, keeps_topb are sound; the harness runs them on the snapshot of the real document every history starts from and on every step, so the hypotheses of C09_every_history are established for each history that is run, not assumed']
 RULE = ('lock-step histories on a document: appendChild / insertBefore / removeChild / addElement / addText / addCDATA over element, text, '
         'CDATA and style:style nodes (subtrees added as a whole, removed, re-added, moved), interleaved with xml(), save(), contentxml(), '
         'stylesxml(), metaxml() calls; after EVERY step doc.getElementsByType(f) for seven element types, element.getElementsByType on '
@@ -78,7 +79,7 @@ def run(ctx):
         ref = D.Ref(u)
         ids = u.free_ids + [u.id_of(u.doc.text), u.id_of(u.doc.styles), u.id_of(u.doc.automaticstyles)]
         allops = D.all_ops(u, ids)
-        d.call('dom_init', vlib.sx_show(u.snapshot()))
+        DC.init_checked(ctx, d, u, True, 'C09-random')
         hist = []
         for _ in range(ctx.rng.randint(3, 14)):
             if ctx.rng.random() < 0.2:
